@@ -67,6 +67,7 @@ type VCOpts struct {
 	OnMakeInterface func(fr *Frame, x *ssa.MakeInterface, iv Val)
 	CheckTags map[string]bool // clause groups whose obligations this run generates (nil: the untagged, structural group only)
 	RG          bool // rely/guarantee obligations at atomic updates of cells with an rg spec
+	StrConstFact func(q *Query, sym string) string // extra fact asserted about every string literal when it is first used
 	InlineAcrossPkgs bool
 	ProtectParams bool
 	NoContents  bool // slice/string contents are not modelled (families are havoced instead): for properties about scalar state
@@ -121,6 +122,11 @@ func (q *Query) strConst(s string) string {
 	q.strOrder = append(q.strOrder, s)
 	q.declare(n, "Str")
 	q.asserts = append(q.asserts, fmt.Sprintf("(= (slen %s) %d)", n, len(s)))
+	if q.opts != nil && q.opts.StrConstFact != nil {
+		if f := q.opts.StrConstFact(q, n); f != "" {
+			q.asserts = append(q.asserts, f)
+		}
+	}
 	if len(s) <= 24 {
 		for i := 0; i < len(s); i++ {
 			q.asserts = append(q.asserts, fmt.Sprintf("(= (sat %s %d) %d)", n, i, s[i]))
